@@ -29,12 +29,15 @@ def include_generic_rules(cx, rep, needles):
             sub.ok('TPL-PARSE', '%s|%s|%s' % (where, c01.S_sha(s.tmpl.text()), s.cat))
             c01.check_opt(cx, facts, fn, s, sub)
             c01.check_arity(cx, fn, s, sub)
+            c01.check_separator(cx, fn, s, sub)
         c01.check_scope(cx, facts, fn, sites, sub)
         try:
             c19.analyse_tree(cx, fn, sub)
         except Exception as e:      # fail closed
             sub.bad('UNANALYSABLE', where, 'name-rules', 'name-resolution rules could not be evaluated: %r' % (e,), fn.file, fn.line)
     check_members(cx, sub, facts, needles)
+    from .c14 import include_merge
+    include_merge(cx, sub)
     for t_, sh_, fn_ in cx.shape_handlers():
         if any(x in fn_.qname for x in needles):
             c11.check_handler(cx, fn_, t_, sh_, sub, facts)
